@@ -31,6 +31,7 @@ GoalPred ==
     [] Goal = "second-acquires-after-unlock" -> Last.a = "lock.write" /\ \E q \in Procs : pc[q] = "done"
     [] Goal = "waiter-sees-unlinked-file" -> Last.a = "lock.flock" /\ pc[Last.p] = "verify" /\ path # fd[Last.p]
     [] OTHER -> FALSE
+GoalBound == Len(hist) <= 16      \* state constraint of the goal searches: unreachable goals end quickly
 GoalInv == GoalPred => (PrintT(<<"TRACEJSON", ToJson(hist)>>) /\ FALSE)
 
 ====
